@@ -151,6 +151,7 @@ class Bounds:
         self._inprog = set()
         self._used = set()
         self._assume = {}
+        self._arm_facts = {}
 
     # ---- event index -------------------------------------------------------------------------
     @property
@@ -376,7 +377,8 @@ class Bounds:
                 for c in calls:
                     region_calls.append(c)
                     if self._call_kills(c, X, is_member, leaf, addr, node):
-                        results.append(B())
+                        fi = None if getattr(self, '_no_field_inv', False) else self._field_invariant(node)
+                        results.append(fi if fi is not None else B())
                         decided = True
                         break
                 if decided:
@@ -386,7 +388,10 @@ class Bounds:
             # reached block start
             preds = cfg.preds.get(b, [])
             if b == cfg.entry or not preds:
-                results.append(getattr(self, 'entry_facts', {}).get(X, B()))
+                ef = getattr(self, 'entry_facts', {}).get(X)
+                if ef is None and not getattr(self, '_no_field_inv', False):
+                    ef = self._field_invariant(node)
+                results.append(ef if ef is not None else B())
                 continue
             for pb in preds:
                 pbl = cfg.blocks[pb]
@@ -567,6 +572,16 @@ class Bounds:
         f = self.fn
         if isinstance(n, int):
             n = f.N[n]
+        if self._arm_facts and n.get('k') in ('BinaryOperator', 'CallExpr'):
+            af = self._arm_facts.get(f.s(n))
+            if af is not None:
+                saved = self._arm_facts
+                self._arm_facts = {}
+                try:
+                    r0 = self._ev(n, point, depth)
+                finally:
+                    self._arm_facts = saved
+                return meet(r0, af) if not r0.bot else r0
         if point is None:
             point = self.cfg.point(n)
         tr = type_range(n.get('t'))
@@ -635,6 +650,12 @@ class Bounds:
             elif op == '-':
                 r.lo = a.lo - b.hi if a.lo is not None and b.hi is not None else None
                 r.hi = a.hi - b.lo if a.hi is not None and b.lo is not None else None
+                # y < x known symbolically  =>  x - y >= 1
+                sa, sb2 = f.s(K[0]), f.s(K[1])
+                if ('<', sa) in b.ubs or ('>', sb2) in a.lbs:
+                    r.lo = 1 if r.lo is None else max(r.lo, 1)
+                elif ('<=', sa) in b.ubs or ('>=', sb2) in a.lbs:
+                    r.lo = 0 if r.lo is None else max(r.lo, 0)
                 if b.lo is not None and b.lo >= 0:
                     r.ubs |= a.ubs
                     if b.lo > 0:
@@ -691,8 +712,23 @@ class Bounds:
             return r.clamp_type(tr) if (r.lo is not None and r.hi is not None) else self._onesided(r, tr)
         if k == 'ConditionalOperator':
             c, x, y = K
-            bx = self._ev(x, point, depth + 1).copy()
-            by = self._ev(y, point, depth + 1).copy()
+            # facts the condition gives about compound sub-expressions (e.g. `(len - indx) > 512`) hold while the arm is evaluated
+            def arm_eval(arm, pol):
+                facts = {}
+                for (l, op, r) in self.guard_facts(c, pol):
+                    lu = f.unwrap(l) if isinstance(l, dict) else l
+                    if r is not None and isinstance(lu, dict) and lu.get('k') in ('BinaryOperator', 'CallExpr') and self._pure(lu):
+                        fb = self._fact_bounds(op, r, point, depth)
+                        if not fb.bot:
+                            facts[f.s(lu)] = fb
+                saved = self._arm_facts
+                self._arm_facts = dict(saved, **facts) if facts else saved
+                try:
+                    return self._ev(arm, point, depth + 1).copy()
+                finally:
+                    self._arm_facts = saved
+            bx = arm_eval(x, True)
+            by = arm_eval(y, False)
             # arms evaluated under the condition: min/max idioms
             for arm, pol, bb in ((x, True, bx), (y, False, by)):
                 arm_s = self._lv_str(f.N[arm])
@@ -720,6 +756,9 @@ class Bounds:
             return join([bx, by])
         if k == 'CallExpr':
             cal = n.get('callee')
+            inl = self._inline_call(n, point, depth)
+            if inl is not None:
+                return inl.clamp_type(tr)
             if cal in self.summaries:
                 return self.summaries[cal](self, n, point, depth).clamp_type(tr)
             if cal in ('strlen',):
@@ -730,6 +769,73 @@ class Bounds:
         if k == 'ParenExpr':
             return self._ev(K[0], point, depth)
         return B().clamp_type(tr)
+
+    def _inline_call(self, n, point, depth):
+        """value of a call to a tiny pure helper whose body is `return <expr over one parameter>` (make_size_t, casts): bounds of the argument through the casts"""
+        cal = n.get('callee')
+        if not cal or cal not in self.prog.fns or depth > MAXD - 5:
+            return None
+        g = self.prog.fns[cal][0]
+        body = g.N[g.body]
+        ks = [x for x in g.kids(body) if x['k'] != 'NullStmt']
+        if len(ks) != 1 or ks[0]['k'] != 'ReturnStmt' or not ks[0]['kids'] or len(g.params) != 1:
+            return None
+        e = g.unwrap(g.N[ks[0]['kids'][0]])
+        if e['k'] == 'DeclRefExpr' and e['n'] == g.params[0]['n']:
+            a = self.fn.args(n)[0]
+            b = self._ev(a, point, depth + 1)
+            if b.bot:
+                return b
+            # through the parameter type and the return type
+            for t in (g.params[0]['t'], g.ret):
+                trr = type_range(t)
+                if trr is None:
+                    return None
+                if not (b.lo is not None and b.hi is not None and b.lo >= trr[0] and b.hi <= trr[1]):
+                    return B().clamp_type(trr)
+            return b
+        return None
+
+    def _field_invariant(self, node):
+        """numeric range of a struct field from *all* its writers in the program, when every writer stores a value with constant bounds
+        (flow-insensitive field invariant; calloc'd structs add 0)"""
+        if node is None or node.get('k') != 'MemberExpr' or node.get('rec') in (None, 'sf_private_tag'):
+            return None
+        key = (node.get('rec'), node['n'])
+        cache = self.prog.__dict__.setdefault('_field_inv', {})
+        if key in cache:
+            return cache[key]
+        cache[key] = None      # recursion guard
+        lo, hi = 0, 0
+        ok = True
+        nw = 0
+        for g in self.prog.all_fns():
+            hits = [x for x in g.walk() if x['k'] in ('BinaryOperator', 'CompoundAssignOperator', 'UnaryOperator') and x.get('op') in ASSIGN_OPS | {'++', '--', 'post++', 'post--'}
+                    and g.unwrap(g.N[x['kids'][0]])['k'] == 'MemberExpr' and (g.unwrap(g.N[x['kids'][0]]).get('rec'), g.unwrap(g.N[x['kids'][0]])['n']) == key]
+            for x in hits:
+                nw += 1
+                if x['k'] != 'BinaryOperator' or x['op'] != '=':
+                    ok = False
+                    break
+                gb = Bounds(self.prog, g, self.eff)
+                gb._no_field_inv = True
+                b = gb.ev(g.unwrap(g.N[x['kids'][1]]))
+                if b.lo is None or b.hi is None or b.hi - b.lo > (1 << 24):
+                    ok = False
+                    break
+                lo, hi = min(lo, b.lo), max(hi, b.hi)
+            if not ok:
+                break
+        # address taken / memcpy into the struct would bypass the writers: require that the field is never the operand of &
+        if ok and nw:
+            for g in self.prog.all_fns():
+                for x in g.walk():
+                    if x['k'] == 'UnaryOperator' and x['op'] == '&':
+                        y = g.unwrap(g.N[x['kids'][0]])
+                        if y['k'] == 'MemberExpr' and (y.get('rec'), y['n']) == key:
+                            ok = False
+        cache[key] = B(lo, hi) if ok and nw else None
+        return cache[key]
 
     def _onesided(self, r, tr):
         if tr is None:
